@@ -152,11 +152,17 @@ ASSUMPTIONS = ["executors, spawn_blocking and async_std::fs are the runtime's: o
 BUILDS = [False]
 
 
+def c04_sessions():
+    """write sessions ended by drop or by an explicit AsyncWrite::close (a no-op in the sync world) before the drop"""
+    from props import c04
+    return c04.async_sessions()
+
+
 def corpus():
     """every operation on every kind of target, on both worlds"""
     stale = [c for c in hist.stale_handle_cases("c15", ["mem", "alt_mem", "ovl_mm"]) if not c.name.endswith("flush_drop")]
     return hist.matrix_cases("c15", ["mem", "phys", "alt_mem", "ovl_mm", "ovl_pp"]) + stale + \
-        hist.open_handle_cases("c15", ["mem", "alt_mem", "ovl_mm", "ovl_m"])
+        hist.open_handle_cases("c15", ["mem", "alt_mem", "ovl_mm", "ovl_m"]) + c04_sessions()
 
 
 def generate(rng, tier):
